@@ -158,6 +158,19 @@ CHECKS = {
         note="The murmur hash itself is not specified (its values are observations); strings over {a,b} up to length 5-6 "
              "plus unicode / longer repetitive strings.",
         tech="TLA+ parse state machine evaluated by TLC on recorded instances with logged hash tables"),
+    "C17": dict(
+        cat="model_checking", ref="5 (C17), 4.13",
+        text="InfoWeight.tla (1) models the re-encodings of a count matrix handed over as COO triples (reordering, explicit zeros, an "
+             "entry split into duplicates) and TLC proves each reachable encoding denotes the same matrix; the exact-prior weights "
+             "computed from every encoding in six storage formats (COO with duplicates, CSR, CSC, CSC with unsorted indices, LIL, "
+             "dense) must coincide, be finite and non-negative, be invariant under row permutation and permute with the columns; "
+             "(2) TLC searches small integer matrices and prior strengths for 'dyadic' columns whose posterior/baseline ratios are "
+             "all powers of two, where KL / ln 2 is the rational sum_i post_i k_i, and the implementation's weight is compared with "
+             "that exact value; (3) fitted transformers (approx/exact prior, weight_power, supervised y) are checked to be the "
+             "column scaling X diag(w): linear, support preserving, w >= 0.",
+        note="'weight = KL divergence' is exact on the searched dyadic family only (325+ columns); the approximate prior is checked "
+             "for finiteness and the permutation laws, not for encoding independence (it counts stored entries by design).",
+        tech="TLA+ specification of matrix re-encodings + TLC search for exactly computable KL instances, replayed into the code"),
     "C18": dict(
         cat="model_checking", ref="5 (C18), 4.14",
         text="SparseOps.tla transcribes the two-pointer merges of sparse_sum/diff/mul, arr_union/intersect and dense_union "
